@@ -60,15 +60,24 @@ Theorem member_reports_change init cl m :
 Proof. exact (report_full init cl m). Qed.
 Print Assumptions member_reports_change.
 
-(* a joiner that reports itself ready holds the replay of a prefix that extends beyond its own add entry: every op
-   committed before the join was acknowledged is in its pinset *)
-Theorem joiner_ready_has_pinset init k es n m p :
+(* a joiner that reports itself ready, and whose FSM has drained its queue, holds the replay of a prefix that extends
+   beyond its own add entry: every op committed before the join was acknowledged is in its pinset *)
+Theorem joiner_ready_has_pinset_partial init k es n m p :
   nth_error (members (crun (cinit k) es)) n = Some m ->
-  memN p init = false -> ready init (crun (cinit k) es) p m = true ->
+  memN p init = false -> ready init (crun (cinit k) es) p m = true -> m_applied m = m_queued m ->
   m_st m = state_at (mlog (crun (cinit k) es)) (m_applied m) /\
   exists ia, (ia < m_applied m)%nat /\ nth_error (mlog (crun (cinit k) es)) ia = Some (EAdd p).
 Proof. exact (joiner_ready_l init k es n m p). Qed.
-Print Assumptions joiner_ready_has_pinset.
+Print Assumptions joiner_ready_has_pinset_partial.
+
+(* S25: without that guard the statement is false: WaitForSync compares raft's AppliedIndex with LastIndex, and
+   hashicorp/raft advances AppliedIndex when an entry is queued for the FSM: a joiner can be ready with an empty pinset *)
+Theorem joiner_ready_has_pinset_refuted :
+  exists init k es n p, memN p init = false /\
+    let cl := crun (cinit k) es in
+    ready init cl p (mget n cl) = true /\ m_st (mget n cl) = [] /\ state_at (mlog cl) (m_recv (mget n cl)) <> [].
+Proof. exact joiner_ready_refuted_l. Qed.
+Print Assumptions joiner_ready_has_pinset_refuted.
 
 (* ---- non-vacuity ---- *)
 Example add_rm_demo :
@@ -79,5 +88,6 @@ Example add_rm_demo :
 Proof. exact demo_add_rm. Qed.
 Example joiner_demo :
   let cl := crun (cinit 2) demo_join in
-  ready [0] cl 1 (mget 1 cl) = true /\ map fst (m_st (mget 1 cl)) = [0] /\ report [0] cl (mget 0 cl) = report [0] cl (mget 1 cl).
+  ready [0] cl 1 (mget 1 cl) = true /\ m_applied (mget 1 cl) = m_queued (mget 1 cl) /\ map fst (m_st (mget 1 cl)) = [0] /\
+  report [0] cl (mget 0 cl) = report [0] cl (mget 1 cl).
 Proof. exact demo_join_ready. Qed.
